@@ -396,8 +396,13 @@ def _binary_pairs(ctx):
                 if len(outs) == 1:
                     parsed.setdefault(a, set()).add(outs[0][1])
     n = 0
-    for fn in P.funcs_in(PT):
+    seen_sites = set()
+    for fn0 in P.funcs_in(PT):
+        fn = P.inlined(fn0, 2)      # a field helper that takes (pointer, length) is expanded at its call sites
         for c in fn.calls("thrift_write_binary"):
+            if (c.l, src(c)) in seen_sites:
+                continue
+            seen_sites.add((c.l, src(c)))
             args = c.args()
             if len(args) < 3:
                 continue
@@ -485,13 +490,7 @@ def run(ctx):
         ctx.ob("R5.spec", "wire-type|%s" % name, TD,
                "compact-protocol type id of %s is %s" % (name, COMPACT_TYPES.get(spec_name)),
                COMPACT_TYPES.get(spec_name) == val, "carquet uses %d" % val)
-    sk = None
-    for cand in ("thrift_skip_at_depth", "thrift_skip"):
-        if P.fn_opt(cand, TD) is not None:
-            sk = P.fn(cand, TD)
-            break
-    if sk is None:
-        raise AnalysisBroken("thrift_skip not found")
+    sk = P.fn("thrift_skip", TD)        # the public entry point: its depth bookkeeping is its own business
     do_ = sem.field_offsets(P, "thrift_decoder")
     T_ = COMPACT_TYPES
     want = {"TRUE": [], "FALSE": [], "BYTE": [("bytes", 1)], "I16": ["varint"], "I32": ["varint"], "I64": ["varint"],
@@ -501,7 +500,7 @@ def run(ctx):
     byval = {v: k for k, v in T_.items()}
     for val in range(0, 16):
         tname = byval.get(val)
-        key = "skip-arm|%s:%s|%s" % (TD, sk.name, "THRIFT_TYPE_" + tname if tname else "value %d" % val)
+        key = "skip-arm|%s:%s|%s" % (TD, "thrift_skip_at_depth", "THRIFT_TYPE_" + tname if tname else "value %d" % val)
         state = {"fields": 0}
 
         def h_field(ev, a, it, state=state):
@@ -541,7 +540,7 @@ def run(ctx):
                  "thrift_read_struct_begin": lambda ev, a, it: ev.append("sbegin") or 0,
                  "thrift_read_struct_end": lambda ev, a, it: ev.append("send") or 0,
                  "thrift_read_field_begin": h_field}
-        args = [sem.Ptr("dec", 0, 1), val] + ([0] if len(sk.params) > 2 else [])
+        args = [sem.Ptr("dec", 0, 1), val]
         try:
             ret, ev, heap = sem.run(P, sk, args, heap0={("dec", do_["status"]): 0}, hooks=hooks, max_forks=8)
         except sem.Inconclusive as ex:
